@@ -62,11 +62,13 @@ Print Assumptions C05_sound_from.
 
 (* ---- the invariant behind both (exposed because C09/C15 reuse it): after the
    two passes every field carries at most one strategy flag, a flagged field is
-   in the write-once set, Targets are injective and point to name-matching,
-   justified fields; names are pairwise distinct. *)
-Theorem C05_pass_invariant : forall sigma jb a,
-  analyse sigma jb = Some a -> acc_guard jb ->
-  Inv (j_env jb) (p_tags (a_src_parsed a)) (j_ic jb) (j_funcs jb) (a_state a)
+   in the write-once set and was not in it before the passes (pr_s0: the state
+   after parseManual and makeCtorMatch), Targets are injective and point to
+   name-matching, justified fields; names are pairwise distinct. *)
+Theorem C05_pass_invariant : forall sigma jb a pr,
+  analyse sigma jb = Some a -> prepare jb = Some pr -> acc_guard jb ->
+  Inv (j_env jb) (p_tags (a_src_parsed a)) (j_ic jb) (j_funcs jb)
+      (s_wsrc (pr_s0 pr)) (s_wdst (pr_s0 pr)) (a_state a)
   /\ NoDup (map f_name (s_src (a_state a))) /\ NoDup (map f_name (s_dst (a_state a))).
 Proof. exact analyse_inv. Qed.
 Print Assumptions C05_pass_invariant.
